@@ -70,6 +70,8 @@ def main():
             for k, num in c["terms"]:
                 d[tuple(L(x) for x in k)] = (num / den) if den != 1 else num
             kw = dict(c.get("kwargs", {}))
+            if c.get("sched_tuple") and isinstance(kw.get("schedule"), list):
+                kw["schedule"] = tuple(kw["schedule"])
             if kw.get("initial_state") is not None:
                 kw["initial_state"] = {L(k): v for k, v in kw["initial_state"]}
 
@@ -120,7 +122,14 @@ def main():
                 try:
                     with warnings.catch_warnings():
                         warnings.simplefilter("ignore")
-                        res = fns[c["fn"]](model, **kw)
+                        if c.get("positional"):
+                            # the same call with every argument given by position, in the documented order
+                            order = ["num_anneals", "anneal_duration", "initial_state", "temperature_range", "schedule", "in_order", "seed"]
+                            dflt = {"num_anneals": 1, "anneal_duration": 1000, "initial_state": None, "temperature_range": None,
+                                    "schedule": "geometric", "in_order": True, "seed": None}
+                            res = fns[c["fn"]](model, *[kw.get(a_, dflt[a_]) for a_ in order])
+                        else:
+                            res = fns[c["fn"]](model, **kw)
                     rtype = type(res).__name__
                     for r in res:
                         api.append({"st": [[repr(k), v] for k, v in r.state.items()], "val": float(r.value).hex(),
